@@ -171,14 +171,15 @@ func runC19(cx *Ctx) {
 		"Decided: enum-cover — every declared constant VALUE of each enumeration (aliases share a key) is a key of its name table / has a case in its name switch (" +
 		"NTStatusToStringName, NTStatusToGoErrorMap minus success, CommandCodeNames, three sub-command tables, SessionMessageTypeToString, UserAccountControlMap minus the reserved-bit table, PasswordPropertiesMap, SAMAccountTypeMap, MSPKIEnrollmentFlagMap, DomainFunctionalityLevelToWindowsVersion, six key-credential switches); " +
 		"enum-name — every row's name is a non-empty constant string, differs from what the String() method returns on a miss (literal or Sprintf pattern) and is pairwise distinct within the table; " +
-		"stringer — every control path of T.String() is enumerated with its exact guard (if / else-if / switch, early returns, result accumulators, `v == \"\"` / `v == nil` tests of the looked-up value, a tail call of a shared helper that receives the table and the receiver); a return reachable when the receiver is a key of the table returns exactly the table value, a return reachable when it is not returns a placeholder (literal, Sprintf pattern or concatenation), and nothing is special-cased; " +
-		"nt-error — every row of the error table is a package-level errors.New/fmt.Errorf with non-empty text, and for NT_STATUS.Error() the guards of all control paths are evaluated under `receiver ∈ NTStatusToGoErrorMap ∧ receiver ≠ NT_STATUS_SUCCESS` (boolean reasoning over found / equals atoms, both polarities, &&, ||, De Morgan, switch arms, accumulators): no nil return is reachable, and every return that is reachable is fmt.Errorf / errors.New whose text prints the receiver numerically (numeric verb not diverted to String(), strconv.Format*), so non-nil for every declared non-success status reduces to table coverage; " +
-		"table-const — no name table (nor any constant table a decomposer or name function was resolved through, package-level or local) is written, deleted from, re-assigned, aliased or passed away anywhere in the module, except to a module function that only reads its parameter (the static rows are the run-time rows); " +
+		"stringer — every control path of T.String() is enumerated with its exact guard (if / else-if / switch, early returns, result accumulators, `v == \"\"` / `v == nil` tests of the looked-up value, cmp.Or(T[recv], placeholder), a local alias of the table, a (value, ok) lookup helper, a tail call of a shared (possibly generic) helper that receives the table, the receiver and the placeholder); a return reachable when the receiver is a key of the table returns exactly the table value, a return reachable when it is not returns a placeholder (literal, Sprintf pattern or concatenation), and nothing is special-cased; " +
+		"nt-error — every row of the error table is a package-level errors.New/fmt.Errorf (or a typed string sentinel with an Error method) with non-empty text, guards that order the receiver against constants (`s >= 0xC0000000`) are evaluated for every non-success key of the table, and for NT_STATUS.Error() the guards of all control paths are evaluated under `receiver ∈ NTStatusToGoErrorMap ∧ receiver ≠ NT_STATUS_SUCCESS` (boolean reasoning over found / equals atoms, both polarities, &&, ||, De Morgan, switch arms, accumulators): no nil return is reachable, and every return that is reachable is fmt.Errorf / errors.New whose text prints the receiver numerically (numeric verb not diverted to String(), strconv.Format*), so non-nil for every declared non-success status reduces to table coverage; " +
+		"table-const — no name table (nor any constant table a decomposer or name function was resolved through, package-level or local) is written, deleted from or re-assigned anywhere in the module — directly, through a local alias, through a struct field that holds it, or inside a module function it is passed to (the static rows are the run-time rows); a flow the rule cannot follow, with no write seen, is NOT DECIDED; " +
 		"flag-family — constants of Flags, Flags2, Capabilities, SecurityMode, UserAccountControl, CustomKeyInformationFlags are single bits and pairwise distinct (zero is a sentinel and must not be used as a mask); " +
-		"flag-decomp — in each decomposer every test is `word & C ==C | !=0 | >0` of one family constant against itself with positive polarity (or the negated test followed by `continue`), emits exactly one non-empty name (append, or WriteString on a builder) that is not the empty-word placeholder, is not another constant's name and is distinct from the other names — or the tested constant itself for a decomposer into values — and every family constant is tested exactly once. A loop over a constant table (array / slice / map composite literal of {mask, name} rows, parallel tables indexed by the counter, a mask list with names looked up in a constant map, slices.Sorted(maps.Keys(T)), a counting loop or a bit walk with constant bounds, `_, ok := T[k]` membership) is resolved statically and decided row by row exactly like the if-chain it replaces, so a missing, duplicated or mis-named row is reported; tests moved into a helper that receives the word (and the table) are followed; range decomposers over the bound map: the single test is `word & key != 0`, the body appends the key or the value, and every table key is a single-bit family constant; " +
-		"order — every iteration over a map inside a decomposer (or a helper it calls) or over a name table anywhere in the module hands each variable it fills to sort.* / slices.Sort* (total order) before any other use; if-chains report in source order and array / slice tables in index order; " +
-		"predicate — every niladic bool method of a flag type is `recv & C ⋈ 0|C` for exactly one family constant, agrees with the frozen predicate→constant table (26 rows), and two predicates share a constant only as a complementary pair; " +
-		"name functions that are no longer a top-level switch (if-chain, lookup in a constant map, switch with initialiser) are evaluated for every declared constant: exactly one return is reachable under `value == K`, and what it returns is K's name. " +
+		"flag-decomp — in each decomposer every test is `word & C ==C | !=0 | >0` (also `(word>>k)&1`) of one family constant against itself with positive polarity (or the negated test followed by `continue`), emits exactly one non-empty name (append, WriteString on a builder, a yield of an iterator, a call of a collecting callback) that is not the empty-word placeholder, is not another constant's name and is distinct from the other names — or the tested constant itself for a decomposer into values — and every family constant is tested exactly once (one `covers` obligation per decomposer and family bit). A loop over a constant table (array / slice / map composite literal of {mask, name} or {name, predicate} rows, parallel tables indexed by the counter, a mask list with names looked up in a constant map, slices.Sorted(maps.Keys(T)) also cached in a package-level variable, maps.Keys / Values / All ranged or collected, a counting loop or a bit walk with constant bounds, `_, ok := T[k]` membership, `name != \"\"` of a looked-up name, a sparse [N]string indexed by bit number) is resolved statically and decided row by row exactly like the if-chain it replaces, so a missing, duplicated or mis-named row is reported. A walk over the SET BITS of the word itself (`for r := w; r != 0; r &= r-1` with `r & -r` / bits.TrailingZeros, the step in the header or the body, lowest or highest bit first, the word's own copy or a masked / shifted start) and a loop over what ANOTHER decomposer of the word reports (a slice it returns, an iter.Seq / iter.Seq2 it yields) are unrolled into one implicit `word & bit != 0` test per bit; tests moved into a helper, a local closure or a generic function that receives the word (and the table) are followed; range decomposers over the bound map: the single test is `word & key != 0`, the body appends the key or the value, and every table key is a single-bit family constant; " +
+		"order — every statement that fills variables in map order inside a decomposer (or a helper it calls) or from a name table anywhere in the module (range over the map, over maps.Keys/Values/All, slices.Collect of those) hands each variable it fills to sort.* / slices.Sort* (total order) before any other use, also when the iteration sits in a nested block; an unexported function that returns the unsorted slice is decided at its call sites; if-chains report in source order, array / slice tables in index order, set-bit walks in bit order; " +
+		"predicate — every niladic bool method of a flag type is `recv & C ⋈ 0|C` for exactly one family constant (all control paths followed: if / else, tagless switch, named result, helpers, generic helpers, statically resolved function values), agrees with the frozen predicate→constant table (26 rows), and two predicates share a constant only as a complementary pair; " +
+		"name functions that are no longer a top-level switch (if-chain, lookup in a constant map, switch with initialiser, a helper function the value is handed to) are evaluated for every declared constant: exactly one return is reachable under `value == K`, and what it returns is K's name; a String() that names the values itself although its table exists (map → switch) is compared case by case with the table's rows. " +
+		"COMPLETENESS BEFORE VERDICT: a violation is only reported for a construct that was positively observed in a completely extracted flow. Where the flag word, the receiver or a table flows into something the rules do not follow (a loop shape they do not model, a function value, an interface method, a struct that holds the table, an error type of the module …) the affected obligations are discharged as NOT DECIDED with a note, and `bit never tested` is not concluded for that decomposer. " +
 		"NOT decided: agreement of constant values or spellings with MS-CIFS/MS-SMB/MS-ADTS/MS-ERREF; that error texts are meaningful; run-time behaviour of fmt/sort/strings (trusted); that a decomposer's accumulator is what it finally returns/joins and that CustomKeyInformationFlags.FromBytes stores the byte before testing it; what name functions yield for UNDECLARED values beyond being distinguishable from declared ones (e.g. KeyStrength.FromBytes keeps a stale Name on a miss); flag words decomposed outside the bound types (ad-hoc masks in callers); MASK-SAT (C18)."
 	r.Assumptions = []string{
 		"go/types constant evaluation and object resolution (x/tools v0.50.0 loader, go1.26.8 front end)",
@@ -188,6 +189,7 @@ func runC19(cx *Ctx) {
 		"unsigned loop variables wrap modulo 2^width (bit walks `m <<= 1` until m == 0); a loop whose variable, bound and step are constants visits exactly the simulated values",
 		"Go rejects duplicate constant keys in a map literal and duplicate constant cases in a switch at compile time (so one key per value is guaranteed by the loader's type check)",
 		"frozen tables (confirmed by reading): predicate→constant (26 rows), UAC reserved bits exempt from naming (10 rows), bindings table↔enumeration (12 maps, 6 switches, 6 flag families)",
+		"two's complement arithmetic on unsigned words: r & -r and r &^ (r-1) isolate the lowest set bit, r & (r-1) clears it; math/bits.TrailingZeros / Len / LeadingZeros / OnesCount as documented; `for x := range seq` visits exactly what seq yields, in that order; slices.Collect / AppendSeq keep that order; cmp.Or returns its first non-zero operand; a constant declared as `A | B | …` of other constants is a mask, not a flag",
 	}
 
 	// register every name table first (order / table-const need the set)
@@ -583,6 +585,10 @@ func (c *c19) enum(e c19Enum, ph *c19Placeholder) {
 		if why, ok := e.Exempt[k.Name]; ok {
 			exemptSeen[k.Name] = true
 			r.OK("enum-cover", con, pos, "exempt: "+why)
+			continue
+		}
+		if parts, union := ix.UnionOf(k.Obj); union && e.Cross && !tables.SingleBit(k.Val) {
+			r.OK("enum-cover", con, pos, "a named union of other constants ("+strings.Join(parts, " | ")+"): a mask, not a flag that needs a name")
 			continue
 		}
 		if successKey != "" && k.Key == successKey {
